@@ -8,7 +8,9 @@ code's dynamic lookup equals the run with lexical lookup). Tie: `resolve` stream
 real resolver vs the model), `run` stream with a scoping bias (real Runtime vs evaluator model), and the
 LEXICAL-mode reference: the same requests answered by the model in `lookup=lexical` mode — a program on
 which the real runtime differs from the lexical reference is a failing input. Implementation-level oracle
-(no model): every binding annotation points to a local of that name; bound callees have that name/arity."""
+(no model): every binding annotation points to a local of that name; bound callees have that name/arity.
+The decidable hypothesis of the dynamic theorem (`Eval.WellScoped`, driver request `ws`) is evaluated on the
+real resolver's annotated AST of every accepted program of the run stream; a program outside it is reported."""
 import os
 
 import resolvelib
@@ -74,11 +76,17 @@ def run(ck: Check):
     # --- dynamic: the real runtime vs the model (dynamic mode), and vs the lexical reference
     streams = runlib.run_streams(ck, ck.tier, kinds=("corpus", "main"), bias="scoping", n_main=2500 if quick else 80000)
     lex_diff = []
+    not_ws = []
     for kind, s in streams.items():
         reqs = [r for r in s["requests"] if r.startswith("run ")]
         impl = {r: a for r, a in zip(s["requests"], s["res"]["impl_lines"])}
         ml = model_lines([lexical(r) for r in reqs])
         ck.evaluations += len(reqs)
+        # the hypothesis of `c04_dynamic` (Eval.WellScoped, decidable) evaluated on the REAL resolver's annotated AST
+        # of every accepted program: an accepted program outside it is not covered by the theorem
+        wl = model_lines(["ws " + r[4:] for r in reqs])
+        ck.count("wellscoped_checked", len(reqs))
+        not_ws += [r for r, w in zip(reqs, wl + ["?"] * (len(reqs) - len(wl))) if w != "ws=1"]
         for r, m in zip(reqs, ml):
             a = impl.get(r, "?")
             if a != m:
@@ -101,6 +109,12 @@ def run(ck: Check):
         if ck.report_violation(rep) is None:
             known += 1
     ck.count("known_finding_hits", known)
+    ck.count("wellscoped_failures", len(not_ws))
+    if not_ws:
+        r = min(not_ws, key=len)
+        ck.report_violation({"kind": "hypothesis-not-met", "family": "run", "what": "the real resolver's annotations of "
+                             "this accepted program are not WellScoped (hypothesis of Props/C04.lean c04_dynamic): the "
+                             "dynamic theorem does not cover it", "program": runlib.src_of(r), "requests": [r]})
     if ck.tier == "thorough":
         ck.leanchecker(mods)
     if ck.is_broken() and not ck.violations:
@@ -117,6 +131,8 @@ def replay(ck, data):
         return resolvelib.resolve_replay(ck, data)
     rc = runlib.replay_requests(ck, data)
     reqs = [r for r in data.get("requests", []) if r.startswith("run ")]
-    for r, m in zip(reqs, model_lines([lexical(r) for r in reqs])):
-        print("lexical reference:", m)
+    for r, m, w in zip(reqs, model_lines([lexical(r) for r in reqs]), model_lines(["ws " + r[4:] for r in reqs])):
+        print("lexical reference:", m, "| hypothesis", w)
+        if w != "ws=1":
+            rc = 1
     return rc
